@@ -547,6 +547,7 @@ type NestFacts struct {
 type NestModel struct {
 	S      *NestState
 	nextid int
+	draws  int
 }
 
 func NewNestModel() *NestModel { return &NestModel{S: &NestState{}} }
@@ -1255,6 +1256,9 @@ func GenNestHistory(s Src, cfg NestGenConfig) NestHistory {
 				focus = last
 			}
 			o, ok := genNestOp(s, m, focus)
+			for try := 0; !ok && try < 3; try++ { // the drawn kind had no applicable instance: draw again
+				o, ok = genNestOp(s, m, focus)
+			}
 			if !ok {
 				continue
 			}
@@ -1296,6 +1300,22 @@ var nestOpKinds = []string{
 	"ctrAdd", "ctrRemove", "ctrUpdate",
 	"optStrSet", "optStrClear", "optArrSet", "optArrClear",
 }
+
+// nestOpWeights: growth 2, in-place change 2, removal / overwrite / move 4.
+var nestOpWeights = func() []int {
+	heavy := map[string]bool{"arrDrop": true, "arrSet": true, "strDrop": true, "strSet": true, "dictDrop": true, "leafShrink": true, "leafDropName": true,
+		"optLeafClear": true, "kidDrop": true, "kidDropDirect": true, "listDrop": true, "optClear": true, "moveKid": true, "listToKid": true, "optToKid": true,
+		"kidToTop": true, "topToKid": true, "moveTop": true, "destroyTop": true, "detach": true, "dropLeaf": true, "ctrRemove": true, "optStrClear": true, "optArrClear": true,
+		"kidPutDirect": true, "leafSet": true}
+	w := make([]int, len(nestOpKinds))
+	for i, k := range nestOpKinds {
+		w[i] = 2
+		if heavy[k] {
+			w[i] = 4
+		}
+	}
+	return w
+}()
 
 func sortedKeys[V any](m map[int]V) []int {
 	keys := make([]int, 0, len(m))
@@ -1354,7 +1374,8 @@ func genNestOp(s Src, m *NestModel, focus *NestOp) (NestOp, bool) {
 	if len(boxes) == 0 {
 		return NestOp{Kind: "create", Box: Sel{A: s.Intn("acct", NestAccounts), P: s.Intn("path", NestBoxPaths)}, ID: m.nextID(), N: genSize(s)}, true
 	}
-	kind := nestOpKinds[s.Intn("kind", len(nestOpKinds))]
+	m.draws++
+	kind := nestOpKinds[pickRot(s, "kind", m.draws, nestOpWeights...)]
 	o := NestOp{Kind: kind}
 	pickBox := func(label string, filter func(Sel, *NBox) bool) (Sel, *NBox, bool) {
 		var cands []Sel
